@@ -25,6 +25,18 @@ package model
 //@   ensures result1 == nil ==> str(result0.ProviderID) == idOfKey(envKeyOf(content(data)))
 //@   ensures result1 == nil ==> result0 == as(envRecordOf(content(data)), "*model.IngestRequest")
 //@   ensures result1 != nil ==> result0 == nil
+// ... and for no other reason is a request rejected (what the constructors produce is always accepted):
+// the envelope does not verify, it carries another record type, its key has no peer ID, or it was
+// signed by somebody else than the provider it names.
+//@   ghost envFailed := false
+//@   ghost idFailed := false
+//@   ghost signer := 0
+//@   ghost prov := 0
+//@   at call ConsumeEnvelope#1: after ghost envFailed := result2 != nil
+//@   at call IDFromPublicKey#1: after ghost idFailed := result1 != nil
+//@   at call IDFromPublicKey#1: after ghost signer := str(result0)
+//@   at call IDFromPublicKey#1: after ghost prov := str(rec.ProviderID)
+//@   ensures-local result1 != nil ==> envFailed || count("call:IDFromPublicKey") == 0 || idFailed || signer != prov
 
 //@ func ReadRegisterRequest
 //@   property C18
@@ -32,6 +44,15 @@ package model
 //@   ensures result1 == nil ==> envValid(content(data), str(peer.PeerRecordEnvelopeDomain))
 //@   ensures result1 == nil ==> str(result0.PeerID) == idOfKey(envKeyOf(content(data)))
 //@   ensures result1 != nil ==> result0 == nil
+//@   ghost envFailed := false
+//@   ghost idFailed := false
+//@   ghost signer := 0
+//@   ghost prov := 0
+//@   at call ConsumeEnvelope#1: after ghost envFailed := result2 != nil
+//@   at call IDFromPublicKey#1: after ghost idFailed := result1 != nil
+//@   at call IDFromPublicKey#1: after ghost signer := str(result0)
+//@   at call IDFromPublicKey#1: after ghost prov := str(rec.PeerID)
+//@   ensures-local result1 != nil ==> envFailed || count("call:IDFromPublicKey") == 0 || idFailed || signer != prov
 
 // Constructors seal a record whose fields are the arguments.
 //@ func MakeIngestRequest
